@@ -84,17 +84,24 @@ PortMatch(cl, e, dstip, port, proto) ==
                     q.ports[i].name = e.name /\ CPProto(q.ports[i]) = proto /\ q.ports[i].port = port
             ELSE TRUE
 
-RuleMatch(cl, np, rule, peerip, dstip, port, proto) ==
-    /\ rule.peers = <<>> \/ \E i \in DOMAIN rule.peers : PeerMatch(cl, np, rule.peers[i], peerip)
-    /\ rule.ports = <<>> \/ \E i \in DOMAIN rule.ports : PortMatch(cl, rule.ports[i], dstip, port, proto)
+\* the two halves of a rule
+RulePeers(cl, np, rule, peerip) == rule.peers = <<>> \/ \E i \in DOMAIN rule.peers : PeerMatch(cl, np, rule.peers[i], peerip)
+RulePorts(cl, rule, dstip, port, proto) == rule.ports = <<>> \/ \E i \in DOMAIN rule.ports : PortMatch(cl, rule.ports[i], dstip, port, proto)
+RuleMatch(cl, np, rule, peerip, dstip, port, proto) == RulePeers(cl, np, rule, peerip) /\ RulePorts(cl, rule, dstip, port, proto)
 
-\* what pod p's policies say about traffic with `peerip` in direction dir (dst address = the receiver)
+\* What a pod's policies say about one direction, in generic form: Gov(i) - policy i governs the pod for
+\* dir; PeerOK(i, j) / PortOK(i, j) - the two halves of rule j of policy i hold.  (Generic so that a caller
+\* may supply memoised halves; DirAllowed below is the plain instance.)
+DirAllowedG(nps, dir, Gov(_), PeerOK(_, _), PortOK(_, _)) ==
+    \/ ~\E i \in DOMAIN nps : Gov(i)                                           \* not isolated
+    \/ \E i \in DOMAIN nps : Gov(i) /\ \E j \in DOMAIN RulesOf(nps[i], dir) : PeerOK(i, j) /\ PortOK(i, j)
+
+\* pod p, traffic with `peerip` in direction dir (dstip = the receiving address)
 DirAllowed(cl, nps, p, dir, peerip, dstip, port, proto) ==
-    \/ ~Isolated(nps, p, dir)
-    \/ \E i \in DOMAIN nps :
-          /\ Governs(nps[i], p, dir)
-          /\ \E j \in DOMAIN RulesOf(nps[i], dir) :
-                RuleMatch(cl, nps[i], RulesOf(nps[i], dir)[j], peerip, dstip, port, proto)
+    DirAllowedG(nps, dir,
+                LAMBDA i : Governs(nps[i], p, dir),
+                LAMBDA i, j : RulePeers(cl, nps[i], RulesOf(nps[i], dir)[j], peerip),
+                LAMBDA i, j : RulePorts(cl, RulesOf(nps[i], dir)[j], dstip, port, proto))
 
 \* conn = [src |-> addr, dst |-> addr, port |-> 1..65535, proto \in Protocols]
 Allowed(cl, nps, conn) ==
@@ -105,12 +112,13 @@ Allowed(cl, nps, conn) ==
 \* a named port is "the named port on a pod": towards a destination that is not a pod of the cluster
 \* there is nothing to resolve the name against.  Such connections are not judged when an egress rule
 \* governing the source uses a named port.
-Unspecified(cl, nps, conn) ==
-    /\ PodAt(cl, conn.dst) = {}
-    /\ \E p \in PodAt(cl, conn.src) : \E i \in DOMAIN nps :
+UnspecifiedPair(cl, nps, src, dst) ==
+    /\ PodAt(cl, dst) = {}
+    /\ \E p \in PodAt(cl, src) : \E i \in DOMAIN nps :
           /\ Governs(nps[i], p, "Egress")
           /\ \E j \in DOMAIN nps[i].egress : \E k \in DOMAIN nps[i].egress[j].ports :
                 Has(nps[i].egress[j].ports[k], "name")
+Unspecified(cl, nps, conn) == UnspecifiedPair(cl, nps, conn.src, conn.dst)
 
 \* ---- objects the API server would have rejected or never serves (not judged) ------------------------
 SelOK(s) == \A i \in DOMAIN s.me :
